@@ -1,0 +1,14 @@
+//go:build verif
+
+// Contracts for the deductive verifier in /verif (comment-only file; see /verif/DESIGN.md).
+package listgroups
+
+//@ property C04
+
+// Wire layout per version, from the Kafka protocol definition of this API (field order, types and the versions each field
+// exists in); the encoders and decoders are compiled from the struct tags, so the tags are checked against it.
+//@ wire Response
+//@   layout v0 ErrorCode int16, Groups []ResponseGroup
+//@   layout v1..v2 ThrottleTimeMs int32, ErrorCode int16, Groups []ResponseGroup
+//@ wire ResponseGroup
+//@   layout v0..v2 GroupID string, ProtocolType string
